@@ -15,6 +15,7 @@ func init() {
 	c("c20-stack-push-foreign-cancel", "C20.stack", stack, `s.cancelFns = append(s.cancelFns, stackCtxCancel)`,
 		"_, otherCancel := context.WithCancel(parent)\n\ts.cancelFns = append(s.cancelFns, otherCancel)", "Push:pushes the cancel of the returned context")
 	c("c20-stack-push-no-parent", "C20.stack", stack, `context.WithCancel(parent)`, `context.WithCancel(context.Background())`, "Push:context derived from parent")
+	c("c20-stack-trigger-drops-entry", "C20.stack", stack, "\t\t\t\t\ts.cancelFns[len(s.cancelFns)-1]()\n", "\t\t\t\t\ts.cancelFns[len(s.cancelFns)-1]()\n\t\t\t\t\ts.cancelFns = s.cancelFns[:len(s.cancelFns)-1]\n", "trigger:does not modify the stack")
 	// ---- C20.eval
 	c("c20-eval-push-background", "C20.eval", interp, `i.interruptStack.Push(ctx)`, `i.interruptStack.Push(context.Background())`, "Eval:push parent")
 	c("c20-eval-trigger-default", "C20.eval", interp, "\t\tcase <-os.InterruptChan():\n\t\t\treturn\n\t\t}", "\t\tcase <-os.InterruptChan():\n\t\t\treturn\n\t\tdefault:\n\t\t}", "interp.New:trigger")
